@@ -394,5 +394,30 @@ func c19Sweeps(c *ev.Collector) {
 			}
 		}
 	}
-	c.Exhaustive("Header.Decode over start 0..8 x remaining 0..16")
+	// a decoder whose offset is already past the end of its buffer (Skip / SkipAlign beyond the data): still an error
+	for n := 0; n <= 16; n++ {
+		for over := 1; over <= 9; over++ {
+			c.Eval()
+			c.NonTrivial(ev.HashStr("hdr-over", fmt.Sprint(n, over)))
+			var err error
+			fr, msg := safeCall(func() {
+				d := ofbase.NewDecoder(make([]byte, n))
+				if over == 9 {
+					d.Skip(n + 1)
+					d.SkipAlign()
+				} else {
+					d.Skip(n + over)
+				}
+				var h ofbase.Header
+				err = h.Decode(d)
+			})
+			cs := fmt.Sprintf("buffer=%d offset=%d past the end", n, over)
+			if fr != "" {
+				c.Report(nil, "C19|Header.Decode|panic", cs+": "+msg, cs)
+			} else if err == nil {
+				c.Report(nil, "C19|Header.Decode|short-accepted", cs+": no error", cs)
+			}
+		}
+	}
+	c.Exhaustive("Header.Decode over start 0..8 x remaining 0..16, and offsets past the end")
 }
